@@ -102,8 +102,28 @@ func Label(t *rapid.T, o NameOpts) []byte {
 	return l
 }
 
+// keywordLabels are labels that spell (or begin like) a word of the master-file grammar: directive
+// names, class and type mnemonics, generic forms, the origin sign. They are ordinary labels.
+var keywordLabels = []string{"$TTL", "$ttl", "$ORIGIN", "$origin", "$INCLUDE", "$include", "$GENERATE", "$generate", "$TTL1", "$ORIGINAL",
+	"$included", "$generated-1", "$", "IN", "in", "CH", "HS", "ANY", "NONE", "A", "NS", "TXT", "SOA", "TYPE1", "type65535", "CLASS1", "class255",
+	"@", "#", "1h", "3600", "1w2d", "-", "_", "*"}
+
 // Name draws a valid wire name (possibly the root).
 func Name(t *rapid.T, o NameOpts) wm.Name {
+	n := name(t, o)
+	if !o.Plain && len(n) > 0 && Rarely(t, 5) {
+		// the first label spells a grammar word
+		kw := []byte(rapid.SampledFrom(keywordLabels).Draw(t, "kwlabel"))
+		m := n.Clone()
+		m[0] = kw
+		if m.Valid() {
+			return m
+		}
+	}
+	return n
+}
+
+func name(t *rapid.T, o NameOpts) wm.Name {
 	o = o.norm()
 	nl := rapid.IntRange(0, o.MaxLabs).Draw(t, "nl")
 	if o.Long && rapid.IntRange(0, 2).Draw(t, "fill") == 0 {
